@@ -26,6 +26,8 @@ CLAIMED = {
              ref="DESIGN.md §4.4, §5 C09", technique="Lean 4 proof over lifecycle state machine + exhaustive event-sequence correspondence"),
  'C18': dict(text="Theorems: a call routed through any live instance of the same mock has the same outcome and leaves the same shared states; a call on one mock leaves every other mock untouched; lifecycle events never touch shared state; a method's answer reads only its own table entry (distinct TypeIds never mix). Tie: relational families (clauses re-interleaved across methods, calls re-routed over clones, a second independent mock interleaved) compared real-vs-real and real-vs-model. Partial: invariance of assembly under clause permutation is validated by the tie, not yet proved.",
              ref="DESIGN.md §4.2, §5 C18", technique="Lean 4 proof + relational (metamorphic) correspondence on the real crate"),
+ 'C14': dict(text="Translator + theorems: the table of tuple Clause impls is regenerated from src/clause.rs and `decide` re-proves that arities are exactly 2..16 and every impl deconstructs fields 0..n-1 in order; for any such table, deconstructing a clause tree of any shape/arity/depth equals listing its terminals left to right (induction on tree size); assembly fails iff some terminal offends (unproducible return, empty stub, mode different from the one first registered for its method at any distance), with the first offender's error, proved via an invariant relating the assembler's table to the accepted prefix. Tie: real Rust tuples of every arity 2..16 and random nestings, offenders at every position. Partial: the compile-time half (ordered => exact counts, then() after exact) is not yet covered by this check.",
+             ref="DESIGN.md §4.2, §5 C14", technique="source-to-Lean translator for the tuple-impl table + Lean 4 proof (decide over table, induction over clause trees, assembler invariant) + correspondence with real tuples"),
 }
 
 checks = []
